@@ -1254,7 +1254,15 @@ impl VM {
 
     fn div(&self, left: &Value, right: &Value, pos: &Position) -> Result<Primitive, Error> {
         Ok(match (left, right) {
-            (P(Int(i)), P(Int(ii))) => Int(i / ii),
+            (P(Int(i)), P(Int(ii))) => match i.checked_div(*ii) {
+                Some(v) => Int(v),
+                None => {
+                    return Err(Error::new(
+                        format!("Invalid integer division: {} / {}", i, ii).into(),
+                        pos.clone(),
+                    ))
+                }
+            },
             (P(Float(f)), P(Float(ff))) => Float(f / ff),
             _ => {
                 return Err(Error::new(
@@ -1280,7 +1288,15 @@ impl VM {
 
     fn modulus(&self, left: &Value, right: &Value, pos: &Position) -> Result<Primitive, Error> {
         Ok(match (left, right) {
-            (P(Int(i)), Value::P(Int(ii))) => Int(i % ii),
+            (P(Int(i)), Value::P(Int(ii))) => match i.checked_rem(*ii) {
+                Some(v) => Int(v),
+                None => {
+                    return Err(Error::new(
+                        format!("Invalid integer modulus: {} %% {}", i, ii).into(),
+                        pos.clone(),
+                    ))
+                }
+            },
             (P(Float(f)), Value::P(Float(ff))) => Float(f % ff),
             _ => {
                 return Err(Error::new(
